@@ -395,8 +395,8 @@ class Oracle:
 
     def run_all(self):
         for scn, (entry, hosts) in self.scenarios.items():
-            modes = ["file"] if len(hosts) > 1 or not scn.startswith(("plain", "blocks")) or "~" in scn \
-                else ["string", "parse-named", "file"]
+            # the three entry modes on the single-file base scenarios; variants and include graphs by file
+            modes = ["string", "parse-named", "file"] if len(hosts) == 1 and "~" not in scn else ["file"]
             self.write({r: host_text(h) for r, h in hosts.items()})
             for mode in modes:
                 for rel, host in hosts.items():
